@@ -65,6 +65,14 @@ def run_case(c):
     mid = stg.periodic_gaussian_t_profile(pulse_width=1.0, period=per2, phase=1.0, pulse_offset_width=0, pulse_direction="up", pnum=3, amplitude=2.0, level=1.0, min_level=0, seed=c["seed"])(tt + per2 / 2)
     if not np.allclose(mid, 1.0, atol=1e-6):
         fails.append(["family-periodic-gaussian", "between pulses the profile is %s, expected the level 1" % mid.tolist()])
+    # the same for an even number of tracked pulses and for downward pulses (level - amplitude at the centres, clipped at min_level)
+    for pnum, direction, want_peak in ((2, "up", 3.0), (4, "up", 3.0), (3, "down", 0.0), (2, "down", 0.0)):
+        kw = dict(pulse_width=1.0, period=per2, phase=1.0, pulse_offset_width=0, pulse_direction=direction, pnum=pnum, amplitude=2.0, level=1.0, min_level=0, seed=c["seed"])
+        pk = stg.periodic_gaussian_t_profile(**kw)(tt)
+        md = stg.periodic_gaussian_t_profile(**kw)(tt + per2 / 2)
+        if not np.allclose(pk, want_peak, atol=1e-6) or not np.allclose(md, 1.0, atol=1e-6):
+            fails.append(["family-periodic-gaussian", "pnum=%d, direction %s: values at the pulse centres %s (expected %g), between pulses %s (expected the level 1)"
+                          % (pnum, direction, pk.tolist(), want_peak, md.tolist())])
     return dict(fails=fails)
 
 
